@@ -426,6 +426,26 @@ func genDeletion(t *rapid.T, h *history, batch int) (string, []string, *ref.DelW
 			li := new(big.Int).And(idx, new(big.Int).SetUint64(last)).Uint64()
 			item, path = work.Get(li), work.Path(li)
 			classes["index-too-large"] = true
+		case kind == 12: // a slot that is valid for idx mod 2^(depth+1), presented with a multiple of 2^(depth+1) added
+			base := rapid.Uint64Range(0, 2*last+1).Draw(t, "al_base") // real or padding index
+			if len(occ) > 0 && rapid.Bool().Draw(t, "al_occ") {
+				base = occ[rapid.IntRange(0, len(occ)-1).Draw(t, "al_oi")]
+			}
+			mult := pick(t, "al_mult", uint64(1), 2, 3, 1<<8, 1<<(30-uint(depth)))
+			if depth >= 30 {
+				mult = 1
+			}
+			idx = new(big.Int).Add(new(big.Int).SetUint64(base), new(big.Int).Lsh(new(big.Int).SetUint64(mult), uint(depth+1)))
+			if base <= last {
+				item, path = work.Get(base), work.Path(base)
+				work.Set(base, big.NewInt(0)) // the batch is consistent for a circuit that ignores the high bits
+			} else {
+				item, path = garbage("al_item"), make([]*big.Int, depth)
+				for j := range path {
+					path[j] = garbage("al_path")
+				}
+			}
+			classes["index-aliased-consistent"] = true
 		default: // genuine if possible, else an empty leaf
 			li := rapid.Uint64Range(0, last).Draw(t, "d_i")
 			if len(occ) > 0 {
@@ -467,7 +487,7 @@ func genDeletion(t *rapid.T, h *history, batch int) (string, []string, *ref.DelW
 	return name, all, w
 }
 
-var delClassPriority = []string{"index-too-large", "wrong-value", "stale-path", "corrupted-path", "dependent-prestate-path", "duplicate-old-value",
+var delClassPriority = []string{"index-aliased-consistent", "index-too-large", "wrong-value", "stale-path", "corrupted-path", "dependent-prestate-path", "duplicate-old-value",
 	"post=pre", "post-random", "post+1", "padding-genuine-data", "padding", "duplicate-padding", "duplicate-current", "dependent-sequential", "already-empty-or-genuine", "genuine"}
 
 // genValidParams draws a relation-valid parameter set (with the reference
